@@ -1,10 +1,139 @@
 import Model.Common.Proto
-open Btc
+import Model.Common.HashProto
+import Model.C09.Impl
+import Generated.SigHash
+open Btc Btc.Sighash
 
-/-- line protocol of property C09: see harness/c09.py -/
-def handle : List String → String
-  -- one line per generated module this driver serves, e.g.
-  -- | "gen" :: "VarInt" :: fn :: args => (Gen.VarInt.dispatch fn args).getD "bad-op"
-  | _ => "bad-op"
+/-!
+line protocol of property C09 (see harness/c09.py)
+
+tokens: bytes are hex (`_` = empty); integers decimal; an empty list is `.`
+  tx       = `version;locktime;in,in,…;out,out,…`   in = `txid:vout:scriptSig:sequence:wit/wit/…`  out = `value:spk`
+             (txid as the 32 bytes are on the wire)
+  outs     = `out,out,…`
+ops
+  legacy <sc> <tx> <i> <ht>
+  segwit <sc> <tx> <i> <ht> <amount> <outs|.>            precomputed from those prevouts, `.` = direct
+  taproot <tx> <i> <outs> <ht> <extflag> <annex> <ext> <pre 0|1>
+  fromtx <outs> <tx> <i> <ht> <pre 0|1> <codesep>
+  strip <script>            codefrom <script> <k>        annexext <wit/wit/…>      redeem <scriptSig> <spk>
+  psbt.ecdsa <out|.> <redeem> <wscript> <nwu 0|1> <sht|.> <tx> <i> <ht|.>
+  psbt.taproot <sht|.> <tx> <i> <outs> <leafhash> <ht|.> <pre 0|1>
+answers: `ok <hex>` / `err value` / `err foreign`; the three digest ops also evaluate the
+specification (Part A) on every accepted line and answer `specdiff …` if it differs.
+-/
+
+def optTok (f : String → Option α) (s : String) : Option (Option α) :=
+  if s == "." then some none else (f s).map some
+
+def listTok (sep : String) (f : String → Option α) (s : String) : Option (List α) :=
+  if s == "." then some [] else (s.splitOn sep).mapM f
+
+def parseOut (s : String) : Option TxOut :=
+  match s.splitOn ":" with
+  | [v, spk] => do pure ⟨← parseInt? v, ← fromHex? spk⟩
+  | _ => none
+
+def parseIn (s : String) : Option (TxIn × List Bytes) :=
+  match s.splitOn ":" with
+  | [txid, vout, ss, seq, wit] => do
+    pure (⟨⟨← fromHex? txid, ← parseInt? vout⟩, ← fromHex? ss, ← parseInt? seq⟩, ← listTok "/" fromHex? wit)
+  | _ => none
+
+def parseTx (s : String) : Option (Tx × List (List Bytes)) :=
+  match s.splitOn ";" with
+  | [v, l, ins, outs] => do
+    let is ← listTok "," parseIn ins
+    let os ← listTok "," parseOut outs
+    pure (⟨← parseInt? v, is.map (·.1), os, ← parseInt? l⟩, is.map (·.2))
+  | _ => none
+
+def parseOuts : String → Option (List TxOut) := listTok "," parseOut
+
+def render (r : Except Py.PyErr Bytes) : String :=
+  match r with
+  | .ok d => "ok " ++ toHex d
+  | .error e => "err " ++ e.name
+
+/-- on accepted lines the btclib-shaped answer must be the specification's -/
+def withSpec (r : Except Py.PyErr Bytes) (spec : Unit → Bytes) : String :=
+  match r with
+  | .ok d => let s := spec (); if s == d then "ok " ++ toHex d else s!"specdiff impl={toHex d} spec={toHex s}"
+  | .error e => "err " ++ e.name
+
+def pre? (flag : String) (tx : Tx) (outs : List TxOut) : Except Py.PyErr (Option Impl.Precomputed) :=
+  if flag == "1" then (Impl.precompute sha256 tx outs).map some else .ok none
+
+def tapExt? (extFlag : Int) (ext : Bytes) : Option (Option TapExt) :=
+  if extFlag == 0 ∧ ext.isEmpty then some none
+  else if extFlag == 1 ∧ ext.length == 37 then
+    some (some ⟨ext.take 32, (ext.getD 32 0).toNat, (ofLE (ext.drop 33) : Nat)⟩)
+  else none
+
+def handleC09 : List String → Option String
+  | ["legacy", sc, tx, i, ht] => do
+    let sc ← fromHex? sc; let (tx, _) ← parseTx tx; let i ← parseInt? i; let ht ← parseInt? ht
+    pure (withSpec (Impl.legacy sha256 sc tx i ht)
+      (fun _ => legacyDigest hash256 sc tx i.toNat (Impl.word ht)))
+  | ["segwit", sc, tx, i, ht, amount, pre] => do
+    let sc ← fromHex? sc; let (tx, _) ← parseTx tx; let i ← parseInt? i; let ht ← parseInt? ht
+    let amount ← parseInt? amount; let pre ← optTok parseOuts pre
+    let p : Except Py.PyErr (Option Impl.Precomputed) := match pre with
+      | none => .ok none
+      | some outs => (Impl.precompute sha256 tx outs).map some
+    pure <| match p with
+      | .error e => "err " ++ e.name
+      | .ok p => withSpec (Impl.segwitV0 sha256 sc tx i ht amount p)
+          (fun _ => bip143Digest hash256 sc tx i.toNat (Impl.word ht) amount)
+  | ["taproot", tx, i, outs, ht, extFlag, annex, ext, pre] => do
+    let (tx, _) ← parseTx tx; let i ← parseInt? i; let outs ← parseOuts outs; let ht ← parseInt? ht
+    let extFlag ← parseInt? extFlag; let annex ← fromHex? annex; let ext ← fromHex? ext
+    pure <| match pre? pre tx outs with
+      | .error e => "err " ++ e.name
+      | .ok p =>
+        let r := Impl.taproot sha256 tx i outs ht extFlag annex ext p
+        match tapExt? extFlag ext with
+        | some e => withSpec r (fun _ =>
+            bip341Digest sha256 tx i.toNat outs ht.toNat (if annex.isEmpty then none else some annex) e)
+        | none => render r
+  | ["fromtx", outs, tx, i, ht, pre, codesep] => do
+    let outs ← parseOuts outs; let (tx, wits) ← parseTx tx; let i ← parseInt? i; let ht ← parseInt? ht
+    let codesep ← parseInt? codesep
+    pure <| match pre? pre tx outs with
+      | .error e => "err " ++ e.name
+      | .ok p => render (Impl.fromTx sha256 hash160 outs tx wits i ht p codesep)
+  | ["strip", s] => do
+    let s ← fromHex? s
+    pure ("ok " ++ toHex (withoutCodeSeparators s))
+  | ["codefrom", s, k] => do
+    let s ← fromHex? s; let k ← parseInt? k
+    pure (match scriptCodeFrom s k with | some r => "ok " ++ toHex r | none => "err value")
+  | ["annexext", wit] => do
+    let stack ← listTok "/" fromHex? wit
+    pure (match Impl.annexAndExt sha256 stack with
+      | .ok (a, e) => s!"ok {toHex a} {toHex e}"
+      | .error e => "err " ++ e.name)
+  | ["redeem", ss, spk] => do
+    let ss ← fromHex? ss; let spk ← fromHex? spk
+    pure (render (Impl.redeemScript hash160 ss spk))
+  | ["psbt.ecdsa", out, redeem, wscript, nwu, sht, tx, i, ht] => do
+    let out ← optTok parseOut out; let redeem ← fromHex? redeem; let wscript ← fromHex? wscript
+    let sht ← optTok parseInt? sht; let (tx, _) ← parseTx tx; let i ← parseInt? i; let ht ← optTok parseInt? ht
+    pure (render (Impl.ecdsaSigHash sha256 ⟨out, redeem, wscript, nwu == "1", sht⟩ tx i ht))
+  | ["psbt.taproot", sht, tx, i, outs, leaf, ht, pre] => do
+    let sht ← optTok parseInt? sht; let (tx, _) ← parseTx tx; let i ← parseInt? i; let outs ← parseOuts outs
+    let leaf ← fromHex? leaf; let ht ← optTok parseInt? ht
+    pure <| match pre? pre tx outs with
+      | .error e => "err " ++ e.name
+      | .ok p => render (Impl.taprootSigHash sha256 sht tx i outs leaf ht p)
+  | _ => none
+
+def handle (toks : List String) : String :=
+  match toks with
+  | "gen" :: "SigHash" :: fn :: args => (Gen.SigHash.dispatch fn args).getD "bad-op"
+  | _ =>
+    match hashOp toks with
+    | some r => r
+    | none => (handleC09 toks).getD "bad-op"
 
 def main : IO Unit := runLoop handle
